@@ -671,7 +671,10 @@ class Summaries(object):
         stack = _stack + (finfo.key,)
         cfg = cfg_of(finfo, self.consts)
         via = [n for n in cfg.nodes if self.node_must(n, finfo, ev, stack)]
-        res = bool(via) and cfg.must_pass(cfg.entry, [cfg.exit], via)
+        # paths on which the event is vacuously satisfied (e.g. the status
+        # already is the one the event would establish) do not need a node
+        vac = ev.vacuous(cfg) if getattr(ev, 'vacuous', None) else ()
+        res = bool(via) and cfg.must_pass(cfg.entry, [cfg.exit], via, edges_excluded=vac)
         if not _stack or res:
             self._must[key] = res
         return res
